@@ -19,6 +19,7 @@ class Clock:
 
 class C05(Prop):
     id = 'C05'
+    extracted = True      # statement-level kernels regenerated from the current source (harness/extract_m.py, Extracted/EquivC05.lean)
     quick_cases = 1500
     thorough_cases = 25000
     quick_budget_s = 50
